@@ -21,6 +21,7 @@ inductive RdEv where
   | data (bs : Bytes)       -- n = |bs| (possibly 0), err = nil
   | dataEof (bs : Bytes)    -- n = |bs|, err = io.EOF (then EOF forever)
   | dataErr (bs : Bytes)    -- n = |bs|, err = some other error (then that error forever)
+  | dataErrOnce (bs : Bytes) -- n = |bs|, err = some other error, reported once: the script goes on
   | eof                     -- 0, io.EOF
   | fail                    -- 0, error
   deriving Repr, DecidableEq
@@ -44,6 +45,7 @@ def delivered : Reader → Bytes × Bool
   | .data bs :: rest => (bs ++ (delivered rest).1, (delivered rest).2)
   | .dataEof bs :: _ => (bs, true)
   | .dataErr bs :: _ => (bs, false)
+  | .dataErrOnce bs :: _ => (bs, false)
   | .eof :: _ => ([], true)
   | .fail :: _ => ([], false)
 
@@ -55,6 +57,7 @@ def atEOF : Reader → Bool
   | .dataEof [] :: _ => true
   | .dataEof (_ :: _) :: _ => false
   | .dataErr _ :: _ => false
+  | .dataErrOnce _ :: _ => false
   | .eof :: _ => true
   | .fail :: _ => false
 
@@ -75,6 +78,11 @@ def pull : Reader → Nat → Bytes → Except VErr (Bytes × Reader)
   | .dataErr bs :: _, n + 1, acc =>
       if bs.length ≤ n + 1 then .error .readerErr
       else .ok (acc ++ bs.take (n + 1), [.dataErr (bs.drop (n + 1))])
+  | .dataErrOnce bs :: rest, n + 1, acc =>
+      -- with `|bs| = n + 1` `io.ReadFull` drops the error; `VerifyReader.Read` has recorded it
+      -- and `Verify` returns it
+      if bs.length ≤ n + 1 then .error .readerErr
+      else .ok (acc ++ bs.take (n + 1), .dataErrOnce (bs.drop (n + 1)) :: rest)
   | .eof :: _, _ + 1, _ => .error .unexpectedEOF
   | .fail :: _, _ + 1, _ => .error .readerErr
 
@@ -132,6 +140,9 @@ def limitReader : Reader → Nat → Reader
       else [.data (bs.take (n + 1))]
   | .dataEof bs :: _, n + 1 => if bs.length ≤ n + 1 then [.dataEof bs] else [.data (bs.take (n + 1))]
   | .dataErr bs :: _, n + 1 => if bs.length ≤ n + 1 then [.dataErr bs] else [.data (bs.take (n + 1))]
+  | .dataErrOnce bs :: rest, n + 1 =>
+      if bs.length ≤ n + 1 then .dataErrOnce bs :: limitReader rest (n + 1 - bs.length)
+      else [.data (bs.take (n + 1))]
   | .eof :: _, _ + 1 => [.eof]
   | .fail :: _, _ + 1 => [.fail]
 
